@@ -314,6 +314,11 @@ impl<'a, P: Prop> ThreadRun<'a, P> {
         };
         if count {
             self.stats.evaluations += 1;
+            if self.stats.evaluations % 20_000 == 0 || self.stats.evaluations == 64 {
+                // progress survives a later crash of the worker (the driver then reports partial coverage)
+                let p = json!({"evaluations": self.stats.evaluations, "distinct_nontrivial": self.stats.nontrivial.len(), "samples": self.stats.samples, "regressions_replayed": self.stats.regressions, "enumerated": self.stats.enumerated, "random": self.stats.random});
+                let _ = std::fs::write(self.opts.out_dir.join(format!("progress.{}.json", self.tid)), p.to_string());
+            }
             for (k, v) in ctx.classes {
                 *self.stats.classes.entry(k).or_insert(0) += v;
             }
